@@ -5,7 +5,7 @@
     one result-list reference — accepted iff exactly one column of the tables in
     scope (restricted to the qualifier, if any) has the name; "does not exist" /
     "ambiguous" otherwise; never a panic (C10_ref_decision_partial). *)
-From Verif Require Import Model.Compile Spec.PgScope Judge.JQ Judge.J02 Proofs.ColumnsFacts Proofs.CompileFacts2.
+From Verif Require Import Model.Compile Spec.PgScope Judge.JQ Judge.J02 Proofs.ColumnsFacts Proofs.CompileFacts2 Proofs.ScopeRefine Proofs.ScopeRefineT Proofs.SelectRefine.
 Open Scope string_scope.
 Open Scope list_scope.
 
@@ -76,7 +76,7 @@ Print Assumptions C10_accepted_relations_exist_partial.
 
 Theorem C10_relation_resolves_iff : forall e ctes rel,
   (exists t, qc_get_table e ctes rel = Ok t) <->
-  (assoc ctes (tn_name rel) <> None \/ cat_get_table (env_cat e) rel <> None).
+  ((tn_schema rel = "" /\ assoc ctes (tn_name rel) <> None) \/ cat_get_table (env_cat e) rel <> None).
 Proof. exact relation_resolves_iff. Qed.
 Print Assumptions C10_relation_resolves_iff.
 
@@ -92,3 +92,40 @@ Theorem C10_unresolved_target_rejected_partial : forall f e ctes n tables target
   forall cols, output_columns (S f) e ctes n <> Ok cols.
 Proof. exact unresolved_target_rejects. Qed.
 Print Assumptions C10_unresolved_target_rejected_partial.
+
+(** For a simple SELECT sqlc accepts exactly the statements the reference
+    semantics accepts (every relation exists; every column reference the mode
+    looks at resolves to exactly one column).
+    The statements covered ("simple SELECT"): SELECT <targets> FROM <base
+    tables, each with or without alias, separated by commas or combined by JOIN> [WHERE / GROUP BY / HAVING / ORDER BY]
+    with no WITH clause and no sub-select; every target a star (bare or qualified by a
+    relation name), a column reference (c or t.c, with or without AS) or an expression
+    that is not a column reference, CASE, COALESCE, sub-select or cast
+    ([target_ok]).  [strict] / [deep] select how much the reference semantics
+    checks: strict = every column reference of every clause must resolve
+    (PostgreSQL) - the theorem then needs clauses without column references -,
+    non-strict = only what property C10 lists (columns paired with a parameter:
+    none here); deep = references inside result expressions must resolve - the
+    theorem then needs result expressions without inner references -, non-deep =
+    only targets that ARE references.  The hypotheses on [from_items],
+    [level_refs], [level_subselects] state these shape facts about the AST. *)
+Theorem C10_simple_select_decision_partial : forall (e : env) (strict deep : bool) (stmt : node) (targets rvs fitems : list node) (leavess : list (list node)) (f : nat),
+  kind_of stmt = "SelectStmt" -> kid "WithClause" stmt = Nil ->
+  kid "TargetList" stmt = NList targets -> targets <> [] ->
+  kid "FromClause" stmt = NList fitems -> Forall2 (join_tree (S f)) fitems leavess -> rvs = List.concat leavess ->
+  from_items (kid "FromClause" stmt) = rvs ->
+  (if strict then level_refs (NList [kid "FromClause" stmt; kid "WhereClause" stmt; kid "GroupClause" stmt;
+                                     kid "HavingClause" stmt; kid "SortClause" stmt])
+   else paired_refs (NList [kid "FromClause" stmt; kid "WhereClause" stmt; kid "GroupClause" stmt;
+                            kid "HavingClause" stmt; kid "SortClause" stmt])) = [] ->
+  level_subselects (NList ([kid "FromClause" stmt; kid "WhereClause" stmt; kid "GroupClause" stmt;
+                            kid "HavingClause" stmt; kid "SortClause" stmt] ++ map (kid "Val") targets ++ [])) = [] ->
+  (if deep then level_refs (NList (map (kid "Val") targets)) else direct_refs targets) = refs_of targets ->
+  NoDup (map visible_name rvs) ->
+  (forall sc, spec_scope (env_cat e) rvs = POk sc ->
+     Forall (fun it => NoDup (map sc_name (si_cols it))) sc /\ Forall (target_ok sc) targets) ->
+  forall g,
+  (exists row, describe (env_cat e) strict deep (S (S f)) [] [] stmt = POk row)
+  <-> (exists cols, output_columns (S g) e [] stmt = Ok cols).
+Proof. exact simple_select_decision. Qed.
+Print Assumptions C10_simple_select_decision_partial.
